@@ -11,20 +11,24 @@ MANIFEST = dict(
           "length, recovery succeeds in the state of a savepoint all of whose predecessors survive and not an older one than the last intact "
           "savepoint (recover_cut; recover_cut_reset for logs with reset marks from an online backup); a record either loop accepts lies "
           "completely in the file (applied_record_complete); with checksums on, changed bytes under a segment or payload checksum make "
-          "recovery fail or leave an earlier savepoint state (crc_detects_partial, crc_detects_payload_partial, explicit hypotheses). The "
+          "recovery fail or leave an earlier savepoint state (crc_detects_partial, crc_detects_payload_partial, explicit hypotheses); every "
+          "log a model of the writer (_write_wl/_flush_wl/_savepoint_exl/_checkpoint_exl, Model/WalWriter.lean) can leave in the file satisfies "
+          "those well-formedness hypotheses (writer_log_wellformed), so recover_cut holds for every writer-produced log at every cut "
+          "(writer_recover_cut). The "
           "model is tied to the code by recovering real logs (real iwkv histories incl. online-backup logs with reset marks and backup images) "
           "cut at/inside every record type and bit-flipped, through the real iwkv_open, plus synthetic logs through _rollforward_exl alone: "
           "main-file images are compared with the model, contents with recorded savepoint states (python dict reference); the theorem "
           "hypotheses are evaluated on every real log"),
     note=("trusted: Lean kernel, translator, harness/generators, gcc+ASan/UBSan, page-cache semantics of MAP_SHARED; modelled not verified: "
           "C control flow of the two loops; crc32 is abstract in the theorems (the changed bytes must hash differently, stored checksum non-zero); "
-          "the separator header itself is not covered by a checksum; writer side checked per log, not proved; tree = /repo + fix commits "
+          "the separator header itself is not covered by a checksum; the writer is a Lean model tied byte for byte to the real log (C04 stream d) "
+          "and its well-formedness is also still evaluated per real log; tree = /repo + fix commits "
           "4f5efbe b993ce2 0cbf31f 329967d; open finding F38 (corruption before the last reset mark of a backup-time log)"),
     technique="Lean 4 proof over executable model + differential correspondence (C harness vs compiled Lean driver)")
 MODULE = "IwModel.Props.C05"
 THEOREMS = ["IwModel.C05.recover_cut", "IwModel.C05.applied_record_complete", "IwModel.C05.crc_detects_partial", "IwModel.C05.crc_detects_payload_partial",
             "IwModel.C05.recover_cut_reset", "IwModel.C05.prescan_cut_savepoint", "IwModel.C05.segClosedB_sound", "IwModel.C05.segDisjointB_sound",
-            "IwModel.C05.wal_layout_ok"]
+            "IwModel.C05.wal_layout_ok", "IwModel.C05.writer_log_wellformed", "IwModel.C05.writer_recover_cut"]
 
 SEP, SET, COPY, WRITE, RESIZE, SAVEPOINT, RESET = 127, 1, 2, 3, 4, 5, 6
 NAMES = {SEP: "sep", SET: "set", COPY: "copy", WRITE: "write", RESIZE: "resize", SAVEPOINT: "savepoint", RESET: "reset"}
@@ -696,7 +700,7 @@ def run(ctx):
         explore(ctx, h, drv, "main", 6, 60, 70, 60, grow=(20000, 40000), mfrac=0.5)
     else:
         explore(ctx, h, drv, "main", 20, 120, 250, 200, mfrac=0.03, nsynth=600)
-    if ctx.proof_broken or ctx.corr_broken:
+    if (ctx.proof_broken or ctx.corr_broken) and not ctx.violations:
         ctx.log("obligation or correspondence broken: widening the search for a failing input")
         for x in (ctx.proof_broken + ctx.corr_broken)[:3]:
             ctx.log("  broken:", x[:500])
